@@ -23,17 +23,17 @@ var surfacePkgs = []string{
 
 // functions of the surface packages that never see peer input
 var surfaceExcluded = map[string]string{
-	"pkg/route.router.insert":      "registration-time code: its input is the application's route pattern, validated by checkPathValid and panicking by contract on a bad pattern; never reached with peer input",
-	"pkg/route.router.addRoute":    "registration-time code (see router.insert)",
-	"pkg/route.newNode":            "registration-time code (see router.insert)",
-	"pkg/route.checkPathValid":     "registration-time validation of the application's route pattern",
-	"pkg/route.Engine.addRoute":    "registration-time code",
+	"pkg/route.router.insert":                "registration-time code: its input is the application's route pattern, validated by checkPathValid and panicking by contract on a bad pattern; never reached with peer input",
+	"pkg/route.router.addRoute":              "registration-time code (see router.insert)",
+	"pkg/route.newNode":                      "registration-time code (see router.insert)",
+	"pkg/route.checkPathValid":               "registration-time validation of the application's route pattern",
+	"pkg/route.Engine.addRoute":              "registration-time code",
 	"pkg/protocol/http1.HostClient.nextAddr": "client configuration: splits the application-provided Addr list, not peer input",
 }
 
 // reviewed exceptions for obligations the zone analysis cannot discharge
 var indexExceptions = map[string]string{
-	"pkg/protocol.Request.FormFile:index[0]#1": "mime/multipart.Form.File only holds non-empty slices (ReadForm appends a header before storing the key), and the nil test above covers the missing key",
+	"pkg/protocol.Request.FormFile:index[0]#1":          "mime/multipart.Form.File only holds non-empty slices (ReadForm appends a header before storing the key), and the nil test above covers the missing key",
 	"pkg/route.node.findCaseInsensitivePath:index[0]#2": "tree invariant label == prefix[0] (newNode): under `n.children[i].label == '/'` the disjunct `n.prefix == \"*\"` is false, so the short-circuit never evaluates children[0]",
 	"pkg/route.node.findCaseInsensitivePath:index[0]#3": "path is non-empty here: the only external caller passes utils.CleanPath(…) (never empty), recursive calls pass the same non-empty path, and the branch that shortens path returns when the remainder is empty",
 }
